@@ -119,4 +119,27 @@ source tree (regenerated list `Gen.writenTemplates`) is inside it. -/
 theorem templates_in_contract : ∀ t ∈ Gen.writenTemplates, 3 < t.length ∧ t.length < 510 := by
   decide
 
+/-- **Text that supplies its own code** (filters/nomail.c since the repair ee720fa): the first 10
+octets of the text (`XYZ X.Y.Z `) are passed as the first part and the rest as an embedded part.
+For every such text — any length, any content — the reply is valid, carries the text's own code on
+every line and the whole text behind the code in order.  (Before the repair the whole text was the
+first part, which is outside the contract of `writen_valid` from 510 octets on: that was the
+overrun.) -/
+theorem own_code_text_valid (m : List Byte) (h : 10 < m.length) :
+    ∃ out, Writen.netWriten (m.take 10) [m.drop 10] = .ok out ∧ ValidReply (m.take 10) (m.drop 4) out := by
+  have hl : (m.take 10).length = 10 := by simp; omega
+  obtain ⟨out, h1, h2⟩ := writen_valid (m.take 10) [m.drop 10] (by omega) (by omega)
+  refine ⟨out, h1, ?_⟩
+  have : (m.take 10).drop 4 ++ [m.drop 10].flatten = m.drop 4 := by
+    simp only [List.flatten_cons, List.flatten_nil, List.append_nil]
+    have h4 : (m.take 10).drop 4 = (m.drop 4).take 6 := by
+      rw [List.drop_take]
+    rw [h4]
+    have : m.drop 10 = (m.drop 4).drop 6 := by rw [List.drop_drop]
+    rw [this, List.take_append_drop]
+  rw [this] at h2
+  exact h2
+
+example : ∃ out, Writen.netWriten [53, 53, 48, 32, 53, 46, 55, 46, 49, 32] [[120]] = .ok out := ⟨_, rfl⟩
+
 end QsmtpModel.Props.C10
